@@ -54,5 +54,9 @@ func PublicKey(c []byte) (*rsa.PublicKey, error) {
 		return nil, err
 	}
 
-	return cert.PublicKey.(*rsa.PublicKey), nil
+	key, ok := cert.PublicKey.(*rsa.PublicKey)
+	if !ok {
+		return nil, fmt.Errorf("uapolicy: certificate does not carry an RSA public key")
+	}
+	return key, nil
 }
